@@ -193,6 +193,10 @@ def check_property(pid, tier, seed):
             undecided.append({"contract": c.key, "reason": f"{type(e).__name__}: {e}"})
             per_contract[c.key] = []
             continue
+        except Exception as e:  # noqa  -- engine limitation on this source: undecided, never a pass
+            undecided.append({"contract": c.key, "reason": f"internal {type(e).__name__}: {e} @ {traceback.format_exc().strip().splitlines()[-3].strip()}"})
+            per_contract[c.key] = []
+            continue
         functions.append({"contract": c.key, "file": src.file.replace("/repo/", ""), "lines": list(src.lines), "sha256": src.sha256, "obligations": len(obs), "param_defaults_fixed": ex.param_defaults})
         per_contract[c.key] = obs
         assumptions |= ex.assumptions_used
@@ -206,9 +210,8 @@ def check_property(pid, tier, seed):
             continue
         functions.append({"contract": "lemma:" + lm.name, "obligations": len(obs)})
         all_obs += [("lemma:" + lm.name, o) for o in obs]
-    timeout = 20.0 if tier == "quick" else 60.0
-    portfolio = ("z3-5.1", "cvc5", "z3-4.8")
-    results = discharge([o for _, o in all_obs], outdir, timeout=timeout, portfolio=portfolio, jobs=int(os.environ.get("VERIF_JOBS", "16")))
+    timeout = 10.0 if tier == "quick" else 60.0
+    results = discharge([o for _, o in all_obs], outdir, timeout=timeout, jobs=int(os.environ.get("VERIF_JOBS", "16")))
     by_solver = {}
     solver_time = 0.0
     for r in results:
